@@ -606,28 +606,31 @@ __strfd_card(
 		break;
 	}
 	case DT_SPFL_S_WDAY:
-		/* get the weekday in ymd mode!! */
+		/* get the weekday in ymd mode!!
+		 * month-count-weekday dates may spell Sunday 0 */
 		d->w = d->w ? (dt_dow_t)d->w : dt_get_wday(that);
+		with (unsigned int w = d->w ?: DT_SUNDAY) {
 		switch (s.abbr) {
 		case DT_SPMOD_NORM:
 			res = arritostr(
-				buf, bsz, d->w,
+				buf, bsz, w,
 				duf_abbr_wday, dut_nabbr_wday);
 			break;
 		case DT_SPMOD_LONG:
 			res = arritostr(
-				buf, bsz, d->w,
+				buf, bsz, w,
 				duf_long_wday, dut_nlong_wday);
 			break;
 		case DT_SPMOD_ABBR:
 			/* super abbrev'd wday */
-			if (d->w < dut_nabab_wday) {
-				buf[res++] = dut_abab_wday[d->w];
+			if (w < dut_nabab_wday) {
+				buf[res++] = dut_abab_wday[w];
 			}
 			break;
 		case DT_SPMOD_ILL:
 		default:
 			break;
+		}
 		}
 		break;
 	case DT_SPFL_S_MON:
